@@ -22,6 +22,11 @@ func init() {
 				Witnesses: []string{"oversized-first", "oversized-in-the-middle"}},
 			{Pkg: "wire", Entry: "VerifH10e", What: "startup packet declaring a length below 4 or above the limit: connection ends, no session",
 				Quick: map[string]int{"REST": 6}, Witnesses: []string{"startup-length-below-minimum", "startup-length-above-limit"}},
+			{Pkg: "wire", Entry: "VerifH11", What: "the configured limit is the one in force on a TLS-upgraded connection and on a connection whose SSLRequest was refused",
+				Quick: map[string]int{"STUFF": 2}, Witnesses: []string{"limit-enforced-inside-tls", "limit-enforced-after-refusal"}},
+			{Pkg: "wire", Entry: "VerifH10f", What: "server-level default: a non-positive size (option, exported field, or no configuration) serves a 5000-byte message normally; thorough: a message declaring more than 16 MiB is skipped with one 54000 error and the next message is served",
+				Quick: map[string]int{"BODY": 5000, "OVERSIZED": 0}, Thorough: map[string]int{"BODY": 5000, "OVERSIZED": 1},
+				Witnesses: []string{"negative-size-on-the-exported-field"}, MaxSteps: 400000000},
 		},
 	})
 	props = append(props, PropSpec{
@@ -35,7 +40,7 @@ func init() {
 				Quick: map[string]int{}, Witnesses: []string{"fresh", "reused"}},
 			{Pkg: "wire", Entry: "VerifH18b", What: "retained query text and parameter value equal their private copies after K later messages with sizes around the 4 KiB granule and the limit",
 				Quick: map[string]int{"K": 2}, Thorough: map[string]int{"K": 3},
-				Witnesses: []string{"later-message-near-granule", "later-oversized-message", "large-retained-message", "abandoned-copy"}},
+				Witnesses: []string{"later-message-near-granule", "later-oversized-message", "large-retained-message", "abandoned-copy", "rejected-parse-then-skipped-messages"}},
 		},
 	})
 }
